@@ -252,6 +252,101 @@ def compare_case(ctx, ci, c, meta, a, b, stats):
             return
 
 
+def matrix_line(k, ln, rn, t, tau):
+    return "mat %d %d %d %d %s %d %s" % (k, ln, rn, len(t), " ".join(str(f2b(v)) for v in t), len(tau),
+                                         " ".join(str(f2b(v)) for v in tau))
+
+
+def matrix_expected(db, mt, n, tau_idx, ln, rn):
+    """the entries PPSpline::bsplmatrix must hold, read off the MODEL's grid output `db`: row j, column i = the ln-th (first
+    row) / rn-th (last row; it wins on a one-row matrix) derivative, else the value, of function i at tau[j]"""
+    per_i = mt["mmax"] + 2
+    per_x = mt["imax"] * per_i
+    rows = []
+    for j, xi in enumerate(tau_idx):
+        w = (rn + 1) if j == len(tau_idx) - 1 else (ln + 1) if j == 0 else 0
+        rows.append([db[xi * per_x + i * per_i + w] for i in range(n)])
+    return rows
+
+
+def matrix_compare(out, exp):
+    """None when the matrix equals the expected entries, else a description"""
+    nr, nc = len(exp), len(exp[0]) if exp else 0
+    if out[:1] != [0] or len(out) < 3 or out[1] != nr or out[2] != nc or len(out) != 3 + nr * nc:
+        return "outcome / shape %s, expected a %d x %d matrix" % (out[:3], nr, nc)
+    for j in range(nr):
+        for i in range(nc):
+            e, g = exp[j][i], out[3 + j * nc + i]
+            if e[0] != "ok":
+                return "row %d column %d: the model's basis evaluation aborts" % (j, i)
+            if g != e[1] and not (math.isnan(b2f(g)) and math.isnan(b2f(e[1]))) and not fclose(b2f(g), b2f(e[1])):
+                return "row %d column %d: %r, expected %r" % (j, i, b2f(g), b2f(e[1]))
+    return None
+
+
+def matrix_stage(ctx, cases, meta, model):
+    """THE COLLOCATION MATRIX (PPSpline::bsplmatrix: one row per site, derivative rows at the two end sites) holds exactly the
+    basis values / right-derivatives of the property: sites drawn from the evaluation points of the grid cases - interior
+    knots of any multiplicity, end points, midpoints - with end derivative orders 0..k; entries compared with the MODEL's
+    grid results for the same knots (already computed for the comparison above)"""
+    rng = ctx.rng
+    jobs = []
+    for ci, (c, mt) in enumerate(zip(cases, meta)):
+        if c[0] != "grid" or mt["kind"] == "bad" or model[ci] is None:
+            continue
+        try:
+            db = decode(model[ci])
+        except CheckError:
+            continue
+        k, t, xs = mt["k"], mt["t"], mt["xs"]
+        n = len(t) - k
+        if n < 1 or len(db) != len(xs) * mt["imax"] * (mt["mmax"] + 2):
+            continue
+        inside = sorted(set((x, xi) for xi, x in enumerate(xs) if math.isfinite(x) and t[0] <= x <= t[-1]), key=lambda p: p[0])
+        # one index per distinct abscissa
+        uniq = {}
+        for x, xi in inside:
+            uniq.setdefault(x, xi)
+        pts = sorted(uniq.items())
+        knots = [p for p in pts if p[0] in set(t[k:-k] if k < len(t) - k else [])]
+        for _ in range(2):
+            if len(pts) < 1:
+                break
+            m = rng.randint(1 if rng.random() < 0.1 else 2, max(2, min(len(pts), n + 2)))
+            m = min(m, len(pts))
+            pick = sorted(rng.sample(pts, m))
+            # often an INTERIOR KNOT as the first / last site (derivative rows taken exactly at a knot)
+            if knots and rng.random() < 0.6:
+                kn = rng.choice(knots)
+                rest = [p for p in pick if p != kn]
+                pick = ([kn] + [p for p in rest if p[0] > kn[0]]) if rng.random() < 0.5 else ([p for p in rest if p[0] < kn[0]] + [kn])
+            ln, rn = rng.randint(0, k), rng.randint(0, k)
+            if rng.random() < 0.5:
+                ln = rng.randint(max(0, k - 2), k)
+            if rng.random() < 0.5:
+                rn = rng.randint(max(0, k - 2), k)
+            tau_idx = [xi for _, xi in pick]
+            exp = matrix_expected(db, mt, n, tau_idx, ln, rn)
+            if any(e[0] != "ok" for row in exp for e in row):
+                continue
+            jobs.append((ci, ln, rn, [x for x, _ in pick], exp))
+    outs = run_harness("spline", [matrix_line(meta[ci]["k"], ln, rn, meta[ci]["t"], tau) for ci, ln, rn, tau, _ in jobs])
+    for (ci, ln, rn, tau, exp), o in zip(jobs, outs):
+        mt = meta[ci]
+        ctx.evaluations += len(exp) * (len(exp[0]) if exp else 0)
+        ctx.count("collocation matrix: k=%d" % mt["k"])
+        at_knot = [x in mt["t"][mt["k"]:len(mt["t"]) - mt["k"]] for x in (tau[0], tau[-1])]
+        ctx.count("collocation matrix: end site at an interior knot" if any(at_knot) else "collocation matrix: end sites elsewhere")
+        ctx.nontriv(("mat", ci, ln, rn, tuple(tau)))
+        bad = matrix_compare(o, exp)
+        if bad:
+            ctx.violation("PPSpline::bsplmatrix(tau = %r, left_n = %d, right_n = %d) on k = %d, knots %r does not hold the basis "
+                          "derivatives of the proved model: %s" % (tau, ln, rn, mt["k"], mt["t"], bad),
+                          {"matrix": True, "k": mt["k"], "knots": mt["t"], "tau": tau, "left_n": ln, "right_n": rn,
+                           "implementation": o[:80],
+                           "harness_cmd": "echo '%s' | harness/target/release/rlharness spline" % matrix_line(mt["k"], ln, rn, mt["t"], tau)})
+
+
 def run(ctx):
     ctx.rule = ("orders 1-6 (plus k = 0 in single calls); knot vectors with k-fold end knots and 0-5 interior "
                 "breakpoints of multiplicity 1..k-1 (4-14 knots where the order allows), plus interior multiplicity k, "
@@ -295,6 +390,7 @@ def run(ctx):
     stats = {"bit_equal": 0, "bit_differs": 0}
     for ci, (c, mt, a, b) in enumerate(zip(cases, meta, impl, model)):
         compare_case(ctx, ci, c, mt, a, b, stats)
+    matrix_stage(ctx, cases, meta, model)
     # one basis function at a Dual / Dual2 ABSCISSA (bsplev_single_dual(2): value B_i, slope B_i' dX, curvature) and the
     # vector form PPSpline::bspldnev: the same derivatives the property speaks of, read through the AD path - at knots, at
     # the right end point, outside the domain (generators and comparison shared with C15; model: Props/C15.v C15_basis_*)
@@ -313,6 +409,17 @@ def replay(ctx, rp):
         return c15.replay(ctx, rp)
     build_harness()
     build_coq(coq_targets_for("C14") + [RUN_TARGET])
+    if rp.get("matrix"):
+        k, t, tau, ln, rn = rp["k"], rp["knots"], rp["tau"], rp["left_n"], rp["right_n"]
+        n = len(t) - k
+        g = ("grid", k, n, k + 1, len(t)) + tuple(f2b(v) for v in t) + (len(tau),) + tuple(f2b(x) for x in tau)
+        db = decode(coq_eval("Run.RunSpline", "runSplineC14", [zcase(g)], ctx.work)[0])
+        exp = matrix_expected(db, {"mmax": k + 1, "imax": n}, n, list(range(len(tau))), ln, rn)
+        o = run_harness("spline", [matrix_line(k, ln, rn, t, tau)])[0]
+        bad = matrix_compare(o, exp)
+        print("replay bsplmatrix: %s" % (bad or "agrees with the model"))
+        ctx.cleanup()
+        return 1 if bad else 0
     c = rp["case"]
     a = run_harness("spline", [line(c)])
     b = coq_eval("Run.RunSpline", "runSplineC14", [zcase(c)], ctx.work)
